@@ -587,7 +587,7 @@ class PdoVariable(variable.Variable):
         """
         byte_offset, bit_offset = divmod(self.offset, 8)
 
-        if bit_offset or self.length % 8:
+        if bit_offset or self.length % 8 or self.length < len(self.od):
             # Extract the bit field from the whole message, which is a
             # little-endian number with bit 0 of byte 0 first
             message = int.from_bytes(self.pdo_parent.data, "little")
@@ -611,7 +611,7 @@ class PdoVariable(variable.Variable):
         logger.debug("Updating %s to %s in %s",
                      self.name, binascii.hexlify(data), self.pdo_parent.name)
 
-        if bit_offset or self.length % 8:
+        if bit_offset or self.length % 8 or self.length < len(self.od):
             # Replace exactly the bits of this field in the whole message
             mask = (1 << self.length) - 1
             value = int.from_bytes(data, "little") & mask
